@@ -189,16 +189,25 @@ Section Traj.
 
   (* zero strength: a unitary mixture whose probabilities are all zero is the identity map,
      in both semantics *)
+  Lemma zero_ksum ops : Forall (fun pu : K * U => fst pu = k0) ops -> ksum (map fst ops) = k0.
+  Proof.
+    intros H. induction H as [|[p u] ops Hp _ IH]; simpl in *; [reflexivity|]. rewrite IH, Hp. ring.
+  Qed.
+
+  Lemma zero_dsum ops rho :
+    Forall (fun pu : K * U => fst pu = k0) ops ->
+    dsum (map (fun pu => dscale (fst pu) (actD (snd pu) rho)) ops) = dzero.
+  Proof.
+    intros H. induction H as [|[p u] ops Hp _ IH]; simpl in *; [reflexivity|].
+    now rewrite IH, Hp, dscale_0, dadd_0_l.
+  Qed.
+
   Theorem zero_strength_dm_gen ops rho :
     Forall (fun pu => fst pu = k0) ops -> chan_dm ops rho = rho.
   Proof.
     intros H. unfold chan_dm.
-    assert (E1 : ksum (map fst ops) = k0).
-    { induction H as [|[p u] ops Hp _ IH]; simpl in *; [reflexivity|]. rewrite IH, Hp. ring. }
-    assert (E2 : dsum (map (fun pu => dscale (fst pu) (actD (snd pu) rho)) ops) = dzero).
-    { induction H as [|[p u] ops Hp _ IH]; simpl in *; [reflexivity|].
-      now rewrite IH, Hp, dscale_0, dadd_0_l. }
-    rewrite E1, E2, dadd_0_r. replace (ksub k1 k0) with k1 by ring. apply dscale_1.
+    rewrite (zero_ksum ops H), (zero_dsum ops rho H), dadd_0_r.
+    replace (ksub k1 k0) with k1 by ring. apply dscale_1.
   Qed.
 End Traj.
 
@@ -209,15 +218,15 @@ Definition Zring : ring_theory 0 1 Z.add Z.mul Z.sub Z.opp (@eq Z).
 Proof. constructor; intros; ring. Qed.
 
 Definition trajectory_expectation_Z (c : list (tstep Z Z)) (v : Z) :
-  expect Z Z 0 Z.add Z.mul Z Z (fun v => v * v) (trajs Z 0 1 Z.add Z.mul Z.sub Z Z Z.mul c v)
+  expect Z Z 0 Z.add Z.mul Z (fun v => v * v) (trajs Z 0 1 Z.add Z.mul Z.sub Z Z Z.mul c v)
   = run_dm Z 0 1 Z.add Z.sub Z 0 Z.add Z.mul Z (fun u d => u * u * d) c (v * v).
 Proof.
-  apply (trajectory_expectation_gen Z 0 1 Z.add Z.mul Z.sub Z.opp Zring Z 0 Z.add Z.mul);
-    intros; ring.
+  apply (trajectory_expectation_gen Z 0 1 Z.add Z.mul Z.sub Z.opp Zring Z 0 Z.add Z.mul)
+    with (proj := fun v => v * v) (actV := Z.mul) (actD := fun u d => u * u * d); intros; ring.
 Qed.
 
 Example trajectory_example :
   let c := [TU Z Z 2; TC Z Z [(3, 5); (4, -1)]; TU Z Z 7] in
-  expect Z Z 0 Z.add Z.mul Z Z (fun v => v * v) (trajs Z 0 1 Z.add Z.mul Z.sub Z Z Z.mul c 1)
+  expect Z Z 0 Z.add Z.mul Z (fun v => v * v) (trajs Z 0 1 Z.add Z.mul Z.sub Z Z Z.mul c 1)
   = run_dm Z 0 1 Z.add Z.sub Z 0 Z.add Z.mul Z (fun u d => u * u * d) c 1.
 Proof. vm_compute. reflexivity. Qed.
